@@ -1,6 +1,6 @@
 (* StoredFormats.v — what a stored artefact reads back to (C18): the CAR framing of Car.v, the
    `ucan@0.9.1` archive variant block and the UCAN token block composed into one statement. *)
-From Ucanto Require Import Base Varint Ipld Cbor Cid Car Formats Blockstore MessageFormat.
+From Ucanto Require Import Base Varint Ipld Cbor Cid Car Formats Blockstore MessageFormat Signing.
 Open Scope N_scope.
 
 Section Stored.
@@ -31,6 +31,10 @@ Section Stored.
     - apply token_transport; assumption.
   Qed.
 End Stored.
+
+(* the signing payload does not depend on the map order of caveats / facts *)
+Lemma sign_payload_canon_token alg t : sign_payload alg (canon_token t) = sign_payload alg t.
+Proof. unfold sign_payload. apply sign_payload_canon. Qed.
 
 (* non-vacuity: a concrete archive meets every hypothesis (identity-multihash CIDs, so any digest function does) *)
 Definition ex_token : utoken :=
